@@ -2,7 +2,7 @@
    what the implementation was observed to do, checked against the model. *)
 From Coq Require Import String List NArith ZArith Bool.
 From J5V.lib Require Import Outcome Corr Json.
-From J5V.model Require Import CodecTypes CodecDecScalar CodecDec CodecDecQuery CodecDecTree.
+From J5V.model Require Import CodecTypes CodecDecScalar CodecDec CodecDecQuery CodecDecTree CodecDecTime.
 Import ListNotations.
 Local Open Scope N_scope.
 
@@ -33,7 +33,9 @@ Inductive deccase :=
    one of the orders *)
 | CQuery (e : env) (root : bytes) (kvs : list (bytes * list bytes))
          (ft : list (bytes * (option N * option N))) (tmt : list (bytes * (Z * Z))) (dt : list (bytes * (bytes * Z)))
-         (obs : dec_obs).
+         (obs : dec_obs)
+(* time.Parse(time.RFC3339, s): (t.Unix(), t.Nanosecond()), or None when it returns an error *)
+| CTime (s : bytes) (r : option (Z * Z)).
 
 Fixpoint insert_all {A} (x : A) (l : list A) : list (list A) :=
   match l with
@@ -54,12 +56,24 @@ Definition obs_matches (o : outcome msg) (obs : dec_obs) : bool :=
   | _, _ => false
   end.
 
+Definition time_eqb (a b : option (Z * Z)) : bool :=
+  match a, b with
+  | Some (x, y), Some (x', y') => (x =? x')%Z && (y =? y')%Z
+  | None, None => true
+  | _, _ => false
+  end.
+
+(* every successful time.Parse of the case is what the model of time.Parse computes *)
+Definition time_table_ok (tmt : list (bytes * (Z * Z))) : bool :=
+  forallb (fun sr => time_eqb (go_time_parse (fst sr)) (Some (snd sr))) tmt.
+
 Definition dec_check (c : deccase) : bool :=
   match c with
   | CLex doc toks me =>
       let '(ts, me') := lex doc in tokens_eqb ts toks && Bool.eqb me me'
   | CDec e root doc ft tmt dt obs =>
-      env_wf e && env_separate e && obs_matches (decode_bytes (orc_of ft tmt dt) e root doc) obs
+      env_wf e && env_separate e && time_table_ok tmt && obs_matches (decode_bytes (orc_of ft tmt dt) e root doc) obs
   | CQuery e root kvs ft tmt dt obs =>
-      env_wf e && existsb (fun p => obs_matches (decode_query (orc_of ft tmt dt) e root p) obs) (perms kvs)
+      env_wf e && time_table_ok tmt && existsb (fun p => obs_matches (decode_query (orc_of ft tmt dt) e root p) obs) (perms kvs)
+  | CTime s r => time_eqb (go_time_parse s) r
   end.
